@@ -5,9 +5,88 @@ import vp
 from checks import loadfam
 
 
+def _mismatch(d, t):
+    for k in set(d) & set(t) if isinstance(d, dict) and isinstance(t, dict) else ():
+        a, b = d[k], t[k]
+        if a["t"] == "null" or b["t"] == "null":
+            continue
+        if (a["t"] == "group") != (b["t"] == "group"):
+            return True
+        if a["t"] == "group" and _mismatch(a["c"], b["c"]):
+            return True
+    return False
+
+
+def _has_null(d):
+    return isinstance(d, dict) and any(n["t"] == "null" or (n["t"] == "group" and _has_null(n["c"])) for n in d.values())
+
+
+def _loads(c):
+    return not _mismatch(c["abs"]["def"], c["abs"]["loc"]) and not _has_null(c["abs"]["def"])
+
+
 def _key(c, r):
     return "def=%s;loc=%s;%s" % (json.dumps(c["abs"]["def"], sort_keys=True), json.dumps(c["abs"]["loc"], sort_keys=True),
                                 sorted(r["tags"])[0])
+
+
+def leaf_paths(tree, prefix=()):
+    out = []
+    for k, n in (tree.items() if isinstance(tree, dict) else []):
+        if n["t"] == "group":
+            out += leaf_paths(n["c"], prefix + (k,))
+        elif n["t"] == "val":
+            out.append(prefix + (k,))
+    return out
+
+
+def run_l2(run, cases, nprojects):
+    """reachability from generated code: one small binary per candidate key path (leaves of the default tree and of the locale tree)"""
+    import os
+    import random
+    import probe
+    rng = random.Random(run.seed)
+    def ok(c):
+        d, t = c["abs"]["def"], c["abs"]["loc"]
+        return isinstance(d, dict) and isinstance(t, dict) and set(map(tuple, leaf_paths(t))) - set(map(tuple, leaf_paths(d)))
+    pool = [c for c in cases if ok(c)]
+    chosen = pool if len(pool) <= nprojects else rng.sample(pool, nprojects)
+    libs = []
+    for n, c in enumerate(chosen):
+        paths = sorted(set(leaf_paths(c["abs"]["def"])) | set(leaf_paths(c["abs"]["loc"])))
+        bins = []
+        for bi, p in enumerate(paths):
+            body = "\n".join("    let _ = td_string!(Locale::%s, %s);" % (l, ".".join(p)) for l in ("en", "fr", "de"))
+            bins.append({"name": "b%02d" % bi, "body": body, "expect": "?", "path": list(p)})
+        libs.append({"name": "c07p%d" % n, "cfg": c["cfg"], "files": c["files"], "bins": bins})
+    res = probe.negative_bins(run, libs, tag="_c07")
+    trace, cases_abs = [], []
+    for n, lib in enumerate(libs):
+        r = res[lib["name"]]
+        cases_abs.append({"id": n + 1, "abs": chosen[n]["abs"]})
+        if not r["lib_built"]:
+            # a project the parser accepts (possibly with diagnostics) must compile
+            from_l1_error = False
+            run.violation("l2-lib;" + _key(chosen[n], {"tags": ["lib"]}), "a project the parser accepts does not compile", {"log": r["log"]})
+            continue
+        for b in lib["bins"]:
+            trace.append({"ev": "Compile", "case": n + 1, "path": b["path"], "got": r["bins"][b["name"]]})
+    trace.append({"ev": "End"})
+    wd = os.path.join(run.workdir, "l2")
+    os.makedirs(wd, exist_ok=True)
+    tpath, cpath = os.path.join(wd, "trace.ndjson"), os.path.join(wd, "cases.ndjson")
+    vp.write_ndjson(tpath, trace)
+    vp.write_ndjson(cpath, cases_abs)
+    summary, rejects, _ = vp.trace_validate("Trace_Keys", "Trace_Keys.cfg", wd, tpath, cpath, env={"SUPPRESS": "0"})
+    if summary["consumed"] != summary["events"]:
+        raise vp.ToolError("trace spec consumed %s of %s events" % (summary["consumed"], summary["events"]))
+    run.traces += len(libs)
+    run.events += summary["events"]
+    for rj in rejects:
+        ev = trace[rj["l"] - 1]
+        run.violation("l2;%s;path=%s" % (_key(chosen[ev["case"] - 1], {"tags": sorted(rj["tags"])}), ".".join(ev["path"])),
+                      "reachability: %s" % sorted(rj["tags"]), {"event": ev, "case": chosen[ev["case"] - 1]["abs"]})
+    return len(trace) - 1
 
 
 def check(run):
@@ -22,10 +101,14 @@ def check(run):
     loadfam.replay_load(run, cases, "Trace_Keys", "Trace_Keys.cfg", build_features=("json", "suppress"),
                         variant="json-suppress", key_of=lambda c, r: "suppress;" + _key(c, r), tag="_suppress",
                         trace_env={"SUPPRESS": "1"})
+    # only projects that load (no group / value clash) can be compiled
+    run.notes["l2_compile_events"] = run_l2(run, [c for c in cases if _loads(c)], 6 if run.tier == "quick" else 40)
     run.exhaustive = True
-    run.assumptions = ["key universe {k1,k2,x{u},g{s1,s2,y,h{t,z}}}; every per-locale tree over it (bounded per tier) against 4 default trees",
+    run.assumptions = ["L2: for a seeded sample of projects with surplus keys one small binary per candidate key path is built with --keep-going: every leaf of the default tree must be "
+                       "reachable for every locale, every path that only exists in another locale must not compile",
+                       "key universe {k1,k2,x{u},g{s1,s2,y,h{t,z}}}; every per-locale tree over it (bounded per tier) against 4 default trees",
                        "each project has the same tree in a locale without inherits (fr) and one with `inherits` (de)",
-                       "accessibility of keys from generated code (compile / no-compile) is observed by the L2 checks, not here"]
+                       "L1: Warnings and BuildersKeys of parse_locales()"]
     return run.finish("one project per (default tree, locale tree); non-trivial when the trees differ",
                       {"distinct_nontrivial": sum(1 for c in cases if c["abs"]["def"] != c["abs"]["loc"])})
 
